@@ -59,6 +59,13 @@ def empty_defaults_per_dtype(dtype):
 
 def _set_entries(net, table, index, preserve_dtypes=True, **entries):
     dtypes = None
+    # a single row is written cell by cell: reject container values for the columns of the component before the
+    # first cell is written, otherwise the failing assignment would leave a partial row behind (additional
+    # user columns given as keyword arguments may hold lists, e.g. geodata of a valve)
+    for col, val in entries.items():
+        if col in net[table].columns and isinstance(val, (list, tuple, set, dict, np.ndarray, pd.Series)):
+            raise UserWarning("The value for column %s of a single %s must be a scalar, got %s"
+                              % (col, table, type(val).__name__))
     if preserve_dtypes:
         # only get dtypes of columns that are set and that are already present in the table
         dtypes = net[table][np.intersect1d(net[table].columns, list(entries.keys()))].dtypes
